@@ -1,13 +1,339 @@
-"""C11 -- placeholder until the check is built"""
+"""C11 -- exact timestamp conversion; bad input refused"""
+
+import datetime
+import io
+import os
+import sqlite3
+
+from .. import core, data
+from . import c10
+
 PROPERTY = 'C11'
 LEVEL = 'exploration'
-SHARDS = {'quick': 1, 'thorough': 1}
-RULE = 'not built yet'
+SHARDS = {'quick': 4, 'thorough': 16}
+RULE = (
+    '(a) All pytz zones x random local datetimes 1900-2037 at whole seconds (half of them in years where the zone\'s '
+    'local mean time or an older standard offset applied; DST zones within hours of their transitions; ambiguous '
+    'local times allowed, non-existent ones excluded by the forward map) handed to the real '
+    'generate_timestamped_rows and, for a sample, through `spowtd load` into the staging tables.  Oracle: pytz\'s '
+    'UTC->local map (fromtimestamp(utc).astimezone(tz), a different code path from localize) must print the original '
+    'text; zoneinfo as a second opinion where both databases give the same offset.  (b) Malformed variants of valid '
+    'G-load triples: one rainfall row removed or displaced inside the span, one ET row removed for a grid step, a '
+    'second load into the populated dataset -- each must raise / exit non-zero, leave every gridded table empty '
+    '(resp. the populated dataset byte-for-byte unchanged in its logical dump); the unmodified triple is loaded as a '
+    'control.  Non-trivial: zone whose LMT offset differs from the offset at the datetime or a DST-observing zone; '
+    'distinct (zone, offset) pairs counted.'
+)
+ASSUMPTIONS = [
+    '"rendering in that zone" is relative to the zone database pytz ships',
+    'refusal of ET missing only at the closing instant is stricter than the property and is not tested either way',
+]
+SIZES = {'quick': dict(ts=24000, staged=12, bad=240), 'thorough': dict(ts=1200000, staged=300, bad=8000)}
+REQUIRED = {
+    tier: {
+        'timestamps-checked': 10000,
+        'zones-covered': 400,
+        'timestamps-in-lmt-or-older-offset-era': 2000,
+        'timestamps-near-dst-transition': 1000,
+        'ambiguous-local-times': 20,
+        'nonexistent-local-times-excluded': 20,
+        'staged-loads-checked': 4,
+        'refused:rain-row-removed': 20,
+        'refused:rain-row-displaced': 20,
+        'refused:et-row-removed': 20,
+        'refused:second-load': 20,
+        'controls-accepted': 50,
+    }
+    for tier in ('quick', 'thorough')
+}
+MIN_NONTRIVIAL = {'quick': 400, 'thorough': 1500}
+GRIDDED = ['time_grid', 'grid_time', 'rainfall_intensity', 'evapotranspiration', 'water_level']
+
+
+def forward(epoch, tz):
+    import pytz
+    return datetime.datetime.fromtimestamp(epoch, pytz.utc).astimezone(tz)
+
+
+def candidate_epochs(naive, tz):
+    """All epochs whose rendering in tz is the naive local time (0, 1 or 2)"""
+    offsets = set()
+    info = getattr(tz, '_transition_info', None)
+    if info:
+        for off, _, _ in info:
+            offsets.add(off)
+    else:
+        offsets.add(tz.utcoffset(naive))
+    out = []
+    base = (naive - data.EPOCH0)
+    for off in offsets:
+        e = int((base - off).total_seconds())
+        if forward(e, tz).replace(tzinfo=None) == naive:
+            out.append(e)
+    return sorted(set(out))
+
+
+def gen_datetime(rng, tz):
+    mode = rng.random()
+    trans = getattr(tz, '_utc_transition_times', None)
+    if trans and mode < 0.45 and len(trans) > 1:
+        # near a transition (DST or historical change)
+        t = rng.choice(trans[1:])
+        if t.year < 1900 or t.year > 2037:
+            t = datetime.datetime(rng.randint(1901, 2037), rng.randint(1, 12), rng.randint(1, 28))
+        off = tz.utcoffset(t + datetime.timedelta(days=2), is_dst=False) if hasattr(tz, 'utcoffset') else datetime.timedelta(0)
+        try:
+            local = t + (off or datetime.timedelta(0))
+        except OverflowError:
+            local = t
+        naive = local + datetime.timedelta(seconds=rng.randint(-3 * 3600, 3 * 3600))
+        return naive.replace(microsecond=0), 'near-transition'
+    if mode < 0.7:
+        year = rng.randint(1900, 1969)
+    else:
+        year = rng.randint(1970, 2037)
+    naive = datetime.datetime(year, rng.randint(1, 12), rng.randint(1, 28), rng.randint(0, 23), rng.randint(0, 59), rng.randint(0, 59))
+    return naive, 'random'
+
+
+def check_timestamps(ctx, rng, n):
+    import pytz
+    import spowtd.load as load_mod
+    try:
+        import zoneinfo
+    except ImportError:  # pragma: no cover
+        zoneinfo = None
+
+    rec = ctx.rec
+    zones = list(pytz.all_timezones)
+    seen_zones = set()
+    for i in range(n):
+        name = zones[(i * ctx.nshards + ctx.shard) % len(zones)] if i < len(zones) * 2 else rng.choice(zones)
+        tz = pytz.timezone(name)
+        naive, how = gen_datetime(rng, tz)
+        if naive.year < 1900 or naive.year > 2037:
+            continue
+        text = naive.strftime(data.FMT)
+        rec.case()
+        cands = candidate_epochs(naive, tz)
+        if not cands:
+            rec.hit('nonexistent-local-times-excluded')
+            continue
+        if len(cands) > 1:
+            rec.hit('ambiguous-local-times')
+        case = {'kind': 'timestamp', 'zone': name, 'text': text}
+        try:
+            rows = list(load_mod.generate_timestamped_rows([[text, '1.5']], tz))
+        except Exception as exc:  # pylint: disable=broad-except
+            desc = core.describe_exception(exc)
+            if desc['origin'] == 'harness':
+                rec.inconclusive_because('harness exception: {}'.format(desc))
+                continue
+            rec.violation('existing-local-time-refused:' + desc['type'], {'exception': desc, 'zone': name, 'text': text}, case, 'timestamp')
+            continue
+        epoch = rows[0][0]
+        rendered = forward(epoch, tz).strftime(data.FMT) if isinstance(epoch, int) else None
+        if rendered != text or rows[0][1:] != ['1.5']:
+            rec.violation('stored-instant-does-not-render-as-the-original-text',
+                          {'zone': name, 'text': text, 'epoch': epoch, 'rendering': rendered, 'admissible_epochs': cands, 'row': rows[0]}, case, 'timestamp')
+            continue
+        rec.hit('timestamps-checked')
+        seen_zones.add(name)
+        if how == 'near-transition':
+            rec.hit('timestamps-near-dst-transition')
+        off_then = forward(epoch, tz).utcoffset()
+        off_now = forward(1700000000, tz).utcoffset()
+        if off_then != off_now:
+            rec.hit('timestamps-in-lmt-or-older-offset-era')
+            rec.mark_nontrivial('{}|{}'.format(name, int(off_then.total_seconds())))
+        elif getattr(tz, '_utc_transition_times', None) and len(tz._utc_transition_times) > 4:
+            rec.mark_nontrivial('{}|{}'.format(name, int(off_then.total_seconds())))
+        if zoneinfo is not None and i % 7 == 0:
+            try:
+                zi = zoneinfo.ZoneInfo(name)
+                r2 = datetime.datetime.fromtimestamp(epoch, zi)
+                if r2.utcoffset() == off_then:
+                    rec.hit('zoneinfo-agrees')
+                else:
+                    rec.hit('zoneinfo-database-differs (not decisive)')
+            except Exception:  # pylint: disable=broad-except
+                rec.hit('zoneinfo-has-no-such-zone')
+        if len(rec.samples) < 3 and off_then != off_now:
+            rec.sample({'zone': name, 'text': text, 'epoch': epoch, 'offset_then_s': off_then.total_seconds(), 'offset_now_s': off_now.total_seconds()})
+    rec.hit('zones-covered', len(seen_zones))
+
+
+def check_staged(ctx, rng, index):
+    """A whole `spowtd load` in a zone with a non-trivial history: staging epochs"""
+    import pytz
+
+    rec = ctx.rec
+    rec.case()
+    name = rng.choice(['Africa/Lagos', 'Asia/Kolkata', 'Asia/Kathmandu', 'America/Caracas', 'Asia/Singapore', 'Australia/Eucla', 'Pacific/Apia', 'Europe/Amsterdam', 'Asia/Jakarta'])
+    tz = pytz.timezone(name)
+    step = rng.choice([1800, 3600])
+    year = rng.choice([1925, 1961, 1985, 2005, 2021])
+    t0 = datetime.datetime(year, rng.randint(1, 12), rng.randint(1, 25), rng.randint(0, 23))
+    n = rng.randint(6, 30)
+    times = [t0 + datetime.timedelta(seconds=i * step) for i in range(n + 1)]
+    cands = [candidate_epochs(t, tz) for t in times]
+    if any(len(c) != 1 for c in cands) or any(b[0] - a[0] != step for a, b in zip(cands, cands[1:])):
+        rec.hit('staged-record-crosses-a-transition (skipped)')
+        return
+    fmt = lambda rows: 'Datetime,v\n' + ''.join('{},{!r}\n'.format(t.strftime(data.FMT), v) for t, v in rows)
+    p = fmt([(t, 1.0) for t in times[:-1]])
+    e = fmt([(t, 0.1) for t in times])
+    z = fmt([(t, -10.0 - i) for i, t in enumerate(times[:-1])])
+    paths = []
+    for nm, text in (('p', p), ('e', e), ('z', z)):
+        path = os.path.join(ctx.workdir, 's{}_{}.txt'.format(index, nm))
+        with open(path, 'w') as f:
+            f.write(text)
+        paths.append(path)
+    db = os.path.join(ctx.workdir, 's{}.sqlite3'.format(index))
+    if os.path.exists(db):
+        os.remove(db)
+    status, exc = data.cli(['load', db, '-p', paths[0], '-e', paths[1], '-z', paths[2], '--timezone', name])
+    case = {'kind': 'staged', 'zone': name, 't0': t0.strftime(data.FMT), 'step': step, 'n': n}
+    if exc is not None or status != 0:
+        rec.violation('valid-load-refused', {'exception': core.describe_exception(exc) if exc else status, 'zone': name}, case, 'staged')
+        return
+    connection = sqlite3.connect(db)
+    got = [r[0] for r in connection.execute('SELECT epoch FROM evapotranspiration_staging ORDER BY epoch')]
+    got_grid = [r[0] for r in connection.execute('SELECT epoch FROM grid_time ORDER BY epoch')]
+    connection.close()
+    exp = [c[0] for c in cands]
+    if got != exp or got_grid != exp:
+        rec.violation('staged-epochs-differ', {'zone': name, 'got': got[:5], 'expected': exp[:5]}, case, 'staged')
+        return
+    rec.hit('staged-loads-checked')
+
+
+def gridded_rows(connection):
+    out = {}
+    names = {r[0] for r in connection.execute("SELECT name FROM sqlite_master WHERE type='table'")}
+    for t in GRIDDED:
+        out[t] = connection.execute('SELECT count(*) FROM {}'.format(t)).fetchone()[0] if t in names else 0
+    return out
+
+
+def check_refusals(ctx, rng, index, via):
+    import spowtd.load as load_mod
+
+    rec = ctx.rec
+    # a valid triple with a comfortable span
+    for _ in range(50):
+        case = c10.gen(rng)
+        zt = sorted(t for t, _ in case['z'])
+        inspan = sorted(t for t, _ in case['rain'] if zt[0] <= t <= zt[-1])
+        if len(inspan) >= 5:
+            break
+    else:
+        return
+    zone = case['tz']
+
+    def attempt(rain, et, z, db=None, label=''):
+        p, e, zz = c10.text_of(rain), c10.text_of(et), c10.text_of(z)
+        if via == 'function':
+            connection = db if db is not None else sqlite3.connect(':memory:')
+            try:
+                load_mod.load_data(connection, io.StringIO(p), io.StringIO(e), io.StringIO(zz), zone)
+                connection.commit()
+                return connection, None
+            except Exception as exc:  # pylint: disable=broad-except
+                connection.rollback()
+                return connection, exc
+        paths = []
+        for nm, text in (('p', p), ('e', e), ('z', zz)):
+            path = os.path.join(ctx.workdir, 'b{}{}_{}.txt'.format(index, label, nm))
+            with open(path, 'w') as f:
+                f.write(text)
+            paths.append(path)
+        path = db if db is not None else os.path.join(ctx.workdir, 'b{}{}.sqlite3'.format(index, label))
+        if db is None and os.path.exists(path):
+            os.remove(path)
+        status, exc = data.cli(['load', path, '-p', paths[0], '-e', paths[1], '-z', paths[2], '--timezone', zone])
+        if exc is None and status != 0:
+            exc = RuntimeError('exit status {}'.format(status))
+        return path, exc
+
+    def open_(handle):
+        return handle if via == 'function' else sqlite3.connect(handle)
+
+    # control
+    rec.case()
+    handle, exc = attempt(case['rain'], case['et'], case['z'], label='c')
+    if exc is not None:
+        rec.hit('control-refused (C10 reports it)')
+        return
+    rec.hit('controls-accepted')
+    before = data.dump(open_(handle))
+    # second load into the populated dataset
+    rec.case()
+    handle2, exc = attempt(case['rain'], case['et'], case['z'], db=handle, label='c')
+    after = data.dump(open_(handle))
+    if exc is None:
+        rec.violation('second-load-into-populated-dataset-accepted', {'via': via}, dict(case, malformation='second-load'), 'refusal')
+    elif after != before:
+        rec.violation('refused-second-load-changed-the-dataset', {'tables': [t for t in after if after[t] != before.get(t)]}, dict(case, malformation='second-load'), 'refusal')
+    elif core.describe_exception(exc)['origin'] == 'harness' and via == 'function':
+        rec.inconclusive_because('harness exception: {}'.format(core.describe_exception(exc)))
+    else:
+        rec.hit('refused:second-load')
+    # malformed variants
+    interior = inspan[1:-1]
+    victim = rng.choice(interior)
+    et_victim = rng.choice(inspan)
+    variants = [
+        ('rain-row-removed', [r for r in case['rain'] if r[0] != victim], case['et'], case['z']),
+        ('rain-row-displaced', [(t + rng.choice([60, -60, 1, case['rstep'] // 2]), v) if t == victim else (t, v) for t, v in case['rain']], case['et'], case['z']),
+        ('et-row-removed', case['rain'], [r for r in case['et'] if r[0] != et_victim], case['z']),
+    ]
+    for name, rain, et, z in variants:
+        rec.case()
+        if name == 'et-row-removed' and len(et) == len(case['et']):
+            continue
+        handle, exc = attempt(rain, et, z, label=name[:2])
+        bad = dict(case, malformation=name, rain=rain, et=et, z=z)
+        if exc is None:
+            rec.violation('malformed-input-accepted:' + name, {'via': via, 'victim_time_s': victim}, bad, 'refusal')
+            continue
+        desc = core.describe_exception(exc)
+        if desc['origin'] == 'harness' and via == 'function':
+            rec.inconclusive_because('harness exception: {}'.format(desc))
+            continue
+        connection = open_(handle)
+        rows = gridded_rows(connection)
+        if any(rows.values()):
+            rec.violation('refused-load-left-gridded-rows-behind:' + name, {'rows': rows, 'via': via}, bad, 'refusal')
+        else:
+            rec.hit('refused:' + name)
+        if via != 'function':
+            connection.close()
 
 
 def run(ctx):
-    ctx.rec.inconclusive_because('check not built yet')
+    s = SIZES[ctx.tier]
+    check_timestamps(ctx, ctx.rng('timestamps'), ctx.share(s['ts']))
+    rng = ctx.rng('staged')
+    for i in range(ctx.share(s['staged'])):
+        check_staged(ctx, rng, i)
+    rng = ctx.rng('refusals')
+    n = ctx.share(s['bad'])
+    for i in range(n):
+        check_refusals(ctx, rng, i, 'cli' if i % 5 == 0 else 'function')
 
 
 def replay(ctx, case, module=None):
-    ctx.rec.inconclusive_because('check not built yet')
+    import pytz
+    import spowtd.load as load_mod
+
+    if case.get('kind') == 'timestamp':
+        tz = pytz.timezone(case['zone'])
+        ctx.rec.case()
+        rows = list(load_mod.generate_timestamped_rows([[case['text'], '1.5']], tz))
+        rendered = forward(rows[0][0], tz).strftime(data.FMT)
+        if rendered != case['text']:
+            ctx.rec.violation('stored-instant-does-not-render-as-the-original-text', {'epoch': rows[0][0], 'rendering': rendered}, None)
+    else:
+        ctx.rec.inconclusive_because('refusal / staged cases regenerate from the seed; rerun the tier with the same seed')
